@@ -266,6 +266,8 @@ def _check_driver(ck, inst, ssite, p, owner, init, ow, nch):
         if at is not None and isinstance(at, T.App) and at.op == "accum":
             nc_t = num_term(argp(ups[0][5], 5)) if ups else None
             okc = (at.args[2] == nc_t and at.args[3] == nc_t)
+        elif ups and num_term(argp(ups[0][5], 5)) is not None and ct == 2 * num_term(argp(ups[0][5], 5)):
+            okc = True  # carried in an object's attribute instead of a local: one chain count per analysed draw (first + generic iteration)
         elif ct.is_const() or (ups and num_term(argp(ups[0][5], 5)) is not None and not (num_term(argp(ups[0][5], 5)).syms() & ct.syms())):
             okc = False  # the reported count does not grow with the draws at all
     ck.check(okc, "C13.R1", inst + ":reported count = chains x draws", ssite, "the reported num_samples %r is not the chain count accumulated once per draw" % (ct,))
